@@ -12,7 +12,7 @@ def run(cmd, cwd, timeout=900, env=None):
     except subprocess.TimeoutExpired as e:
         return 124, "TIMEOUT after %ss\n%s" % (timeout, ((e.stdout or b"").decode(errors="replace") if isinstance(e.stdout, bytes) else (e.stdout or ""))[-3000:]), time.time() - t0
 
-TARGET = "/tmp/seedtarget"
+TARGET = os.environ.get("SEED_TARGET", "/tmp/seedtarget")
 env = dict(os.environ, CARGO_NET_OFFLINE="true", CARGO_TARGET_DIR=TARGET)
 for d in sys.argv[1:]:
     d = os.path.abspath(d)
